@@ -263,7 +263,7 @@ def cases():
         for k in range(1 if tier == 'quick' else 3):
             out.append({'label': '%s/k%d' % (m.name, k), 'mesh': m, 'fields': fsets[(i + k + 4) % len(fsets)],
                         'layout': families.scatter_layouts(m, rnd, max_files=3), 'ref_extra': (i + k) % 3})
-    for r in range(6 if tier == 'quick' else 40):
+    for r in range(6 if tier == 'quick' else 300):
         nd = rnd.choice([2, 3])
         m = families.random_mesh(rnd, nd, max_levels=3, max_boxes=4, max_extent=4)
         m.name = 'rand%d-%dd' % (r, nd)
